@@ -4,7 +4,7 @@ import ast
 from ..rules import must_precede, must_follow, weak_orderings
 from ..cfg import cfg_of, always_raises
 from ..effects import MUTATING
-from ..astutil import dotted, get_arg, derived, norm, enclosing, names_in, defs_of, assignments
+from ..astutil import pubnorm, dotted, get_arg, derived, norm, enclosing, names_in, defs_of, assignments
 from ..srcmodel import own_nodes, AnalysisError
 from .C17 import find_committer, find_appenders, d2_data_owners, d2_commit_counts
 from .C09 import d3_checker, d2_accumulator, d4_iterable, product_atoms, expand_props, recover
@@ -142,9 +142,10 @@ def d4_truncate(ctx, committer):
         ds = [v for v, _ in defs_of(f.node, arg.id)]
         arg = ds[0] if len(ds) == 1 else arg
     atoms = product_atoms(arg) if arg is not None else None
-    want = [tuple(sorted((f'{obj}.dtype.itemsize', newlen, f'product({obj}.shape[1:])'))),
-            tuple(sorted((f'{obj}.itemsize', newlen, f'product({obj}.shape[1:])'))),
-            tuple(sorted((f'{obj}._dtype.itemsize', newlen, f'product({obj}._shape[1:])')))]
+    if atoms is not None:
+        atoms = tuple(sorted(pubnorm(a_) for a_ in atoms))
+    want = [tuple(sorted((f'{obj}.itemsize', newlen, f'product({obj}.shape[1:])'))),
+            tuple(sorted((f'{obj}.itemsize', newlen, f'np.prod({obj}.shape[1:])')))]
     if atoms is None:
         ctx.assume('R-FLOW', 'D4', f, r.node, 'byte-count', 'truncate_array: byte count = newlen x product(shape[1:]) x itemsize',
                    detail='not a pure product')
@@ -163,8 +164,9 @@ def d4_truncate(ctx, committer):
             if isinstance(a, ast.Name):
                 ds = [v for v, _ in defs_of(f.node, a.id)]
                 a = ds[0] if len(ds) == 1 else a
-            ok = isinstance(a, ast.BinOp) and isinstance(a.op, ast.Sub) and norm(a.left) == newlen and \
-                norm(a.right) in (f'len({obj})', f'{obj}.shape[0]')
+            a = inline(f, a) if a is not None else a
+            ok = isinstance(a, ast.BinOp) and isinstance(a.op, ast.Sub) and \
+                norm(a.left) in (newlen, norm(nls[0][1])) and pubnorm(a.right) in (f'len({obj})', f'{obj}.shape[0]')
             ctx.decide(ok, 'R-FLOW', 'D4', f, node, 'commit-delta', 'truncate_array commits newlen - len(a)',
                        detail=f'committed delta is {norm(a)}')
             ctx.decide(must_precede(f, node, [r.node]), 'R-ORDER', 'D4', f, node, 'resize-before-commit',
@@ -205,7 +207,18 @@ def d5_cache(ctx, c, committer):
     ctx.decide(ok, 'R-FLOW', 'D5', committer, sz[0] if sz else None, 'size-from-shape',
                f'{committer.qualname} recomputes the size from the new shape', detail='size not derived from the new shape')
     calls = [n for n in own_nodes(body) if isinstance(n, ast.Call) and get_arg(n, None, 'shape') is not None]
-    ok = bool(calls) and norm(get_arg(calls[0], None, 'shape')) in ('self._shape', 'self.shape')
+    shp = get_arg(calls[0], None, 'shape') if calls else None
+    if shp is None:
+        # or a dictionary argument {'shape': <shape>} handed to the descriptor updater
+        for n in own_nodes(body):
+            if isinstance(n, ast.Call):
+                for a_ in n.args:
+                    a_ = inline(committer, a_)
+                    if isinstance(a_, ast.Dict):
+                        for k_, v_ in zip(a_.keys, a_.values):
+                            if isinstance(k_, ast.Constant) and k_.value == 'shape':
+                                shp, calls = v_, [n]
+    ok = shp is not None and pubnorm(shp) in ('self.shape',)
     ctx.decide(ok, 'R-FLOW', 'D5', committer, calls[0] if calls else None, 'descriptor-gets-handle-shape',
                f'{committer.qualname} writes the shape it stored in the handle to the descriptor',
                detail='descriptor and handle receive different shapes')
